@@ -388,6 +388,14 @@ func Guard(f func()) (panicked bool, msg string) {
 
 // GuardSite is Guard plus the name of the innermost library function on the panicking stack
 // (stable across line-number shifts; used in violation identities).
+// RepoRoot is the library tree the harness was built against (VERIF_REPO, default /repo).
+var RepoRoot = func() string {
+	if v := os.Getenv("VERIF_REPO"); v != "" {
+		return v
+	}
+	return "/repo"
+}()
+
 func GuardSite(f func()) (panicked bool, msg, site string) {
 	defer func() {
 		if x := recover(); x != nil {
@@ -421,7 +429,7 @@ func topFrames(st string) string {
 	var out []string
 	for _, l := range lines {
 		l = strings.TrimSpace(l)
-		if strings.HasPrefix(l, "/repo/") || strings.Contains(l, "go-i2p/") && strings.HasPrefix(l, "/") {
+		if strings.HasPrefix(l, RepoRoot+"/") || strings.Contains(l, "go-i2p/") && strings.HasPrefix(l, "/") {
 			if i := strings.IndexByte(l, ' '); i > 0 {
 				l = l[:i]
 			}
